@@ -10,7 +10,7 @@ from common import *
 
 def symptom(ev):
     d = ev.get('detail', {})
-    if ev.get('op') == 'sweep':
+    if ev.get('op') in ('sweep', 'block'):
         for k in ('panic', 'nan', 'ninf', 'pinf', 'nonint', 'zerow'):
             if d.get(k, 0):
                 return k
@@ -34,7 +34,7 @@ def run(pid, tier):
     thorough = tier == 'thorough'
     wd = workdir(pid, 'traces')
     tr = wd / 'sup.ndjson'
-    s = rdv(['sup-drive', '--seed', sd, '--seeds', 2 if not thorough else 12, '--positions', 8, '--block-calls', 1000 if not thorough else 20000,
+    s = rdv(['sup-drive', '--seed', sd, '--seeds', 2 if not thorough else 12, '--positions', 8, '--block-calls', 20000 if not thorough else 400000,
              '--sweep', (1 if not thorough else 2) if pid == 'C03' else 0, '--limit-ms', 2000, '--out', tr], timeout=14000)
     o.extra['drive'] = s
     o.evaluations = s['calls']
@@ -65,7 +65,7 @@ def run(pid, tier):
                     n = float(ev.get('label').split('[')[1].split(',')[0])
                     vals = [float(x) for x in (d.get('show') or [])]
                     side = 'above_n' if vals and all(v > n for v in vals) else 'other'
-                    if ev.get('op') == 'sweep':
+                    if ev.get('op') in ('sweep', 'block'):
                         side = 'above_n' if d.get('nonint', 0) == 0 else 'other'
                 except Exception:
                     side = 'other'
